@@ -308,6 +308,12 @@ func genC08(out, tier string, rng *rand.Rand) {
 	}
 	programs = append(programs, plain([][]Call{{create, create10, w("a", "1"), w10("x", "10"), {Req: Req{Kind: "delete", Table: t1}, Now: 1}}, {w10("y", "11"), create, w("b", "2"), {Req: Req{Kind: "drop", Table: t1, All: true}, Now: 1}}, {w10("z", "12"), {Req: Req{Kind: "delete", Table: t10}, Now: 1}}, {w("c", "3")}}))
 	tags = append(tags, "prefix-related-ids")
+	// keys, qualifiers and values on both sides of the sizes at which length prefixes grow, across restarts
+	{
+		lf := longFieldProgram()
+		programs = append(programs, plain([][]Call{lf[:4], lf[4:11], lf[11 : len(lf)-1]})) // without the final SampleRowKeys (its coins are not recorded by the disk runner)
+		tags = append(tags, "long-fields")
+	}
 	// kill INSIDE a request, restart on that image and carry on (twice in a row: the second kill hits a
 	// server that itself started on a crash image)
 	del := Call{Req: Req{Kind: "delete", Table: t1}, Now: 1}
